@@ -525,6 +525,14 @@ func run(e *core.Env) {
 		// in half of the cases the frame in flight at the wrap is a priority frame of the old key
 		var prioOld *sealedFrame
 		if tp.Chance(1, 2) {
+			if tp.Chance(2, 3) {
+				// the priority class has seen some traffic under the old key (the counter only
+				// moves forward): the old frame's number lies far above the first numbers of the
+				// next epoch
+				if probe := sealPrioFrame(-1); probe != nil && probe.seq < 0xFFFF0000 {
+					sh.PrioSetOut(probe.seq + 65 + uint32(tp.Intn(3000))) // (the probe frame itself is lost)
+				}
+			}
 			prioOld = sealPrioFrame(0)
 		}
 		var fs []*sealedFrame
